@@ -107,6 +107,7 @@ func genScenario(t *rapid.T) *Scenario {
 	sc.Steps = rapid.SliceOfN(g, 1, 14).Draw(t, "steps")
 	sc.Steps = append(sc.Steps, rapid.SliceOfN(g, 0, 14).Draw(t, "more1")...)
 	sc.Steps = append(sc.Steps, rapid.SliceOfN(g, 0, 14).Draw(t, "more2")...)
+	sc.Names = genNames(t, sc.Addrs)
 	return sc
 }
 
@@ -196,6 +197,37 @@ func replayOne(t *testing.T, rf *vstat.ReplayFile) string {
 		}
 		for i := 0; i < 20; i++ { // same virtual instants, another real schedule each time
 			if _, err := runStorm(t, &sc); err != nil {
+				return err.Error()
+			}
+		}
+		return ""
+	case rf.Part == "spell":
+		var sc SpellCase
+		if err := json.Unmarshal(rf.Scenario, &sc); err != nil {
+			return "bad spell case: " + err.Error()
+		}
+		if _, err := runSpell(t, &sc); err != nil {
+			return err.Error()
+		}
+		return ""
+	case rf.Part == "retry":
+		var rc RetryCase
+		if err := json.Unmarshal(rf.Scenario, &rc); err != nil {
+			return "bad retry case: " + err.Error()
+		}
+		for i := 0; i < 10; i++ {
+			if _, err := runRetry(&rc); err != nil {
+				return err.Error()
+			}
+		}
+		return ""
+	case rf.Part == "parked":
+		var pc ParkCase
+		if err := json.Unmarshal(rf.Scenario, &pc); err != nil {
+			return "bad park case: " + err.Error()
+		}
+		for i := 0; i < 20; i++ {
+			if _, err := runPark(&pc); err != nil {
 				return err.Error()
 			}
 		}
